@@ -243,12 +243,16 @@ def check_roots(S, B, roots, perm, acc, case):
         form = COEFF_FORMS[(len(S) + 3 * len(B) + len(roots)) % len(COEFF_FORMS)]
     coeffs = coeff_form(coeffs, form)
     _ENV['actual'] = form != 'real_ndarray'
+    pristine = [complex(x) for x in (coeffs.coeffs if isinstance(coeffs, np.poly1d) else coeffs)]
     acc.seen('coefficients/' + form)
     results = {
         'polyroots01': outcome(lambda: polyroots01(coeffs)),
         'polyroots_real_01open': outcome(lambda: polyroots(coeffs, realroots=True, condition=lambda r: 0 < r < 1)),
         'polyroots_all': outcome(lambda: polyroots(coeffs)),
     }
+    now = [complex(x) for x in (coeffs.coeffs if isinstance(coeffs, np.poly1d) else coeffs)]
+    if now != pristine:
+        acc.violation('input_modified_in_place', {'fn': 'polyroots', 'form': form}, case, observed=[str(x) for x in now], expected=[str(x) for x in pristine])
     for fn, r in results.items():
         if r[0] != 'ok':
             acc.violation('polyroots_raises', {'fn': fn, 'exc': r[1]}, case, observed=r)
@@ -340,9 +344,17 @@ def run_limits(acc):
                             g = (g1 * sc) * (X - t0) ** k
                             case = {'what': 'limit', 't0': t0, 'm': m, 'k': k, 'f1': list(map(float, f1.coeffs)),
                                     'g1': list(map(float, g1.coeffs)), 'scale': sc}
+                            keep_f, keep_g = np.array(f.coeffs, copy=True), np.array(g.coeffs, copy=True)
                             r = outcome(lambda: rational_limit(f, g, t0))
                             rel = 'equal' if m == k else ('f_higher' if m > k else 'g_higher')
                             acc.case(case, cls='limit/' + rel)
+                            # the caller's polynomials are inputs: they must come back untouched (they may be real(P) / imag(P)
+                            # of a curve's polynomial and share its coefficient array)
+                            if not (np.array_equal(keep_f, f.coeffs) and np.array_equal(keep_g, g.coeffs)):
+                                acc.violation('input_modified_in_place', {'fn': 'rational_limit'}, case,
+                                              observed=[list(map(float, f.coeffs)), list(map(float, g.coeffs))], expected=[list(map(float, keep_f)), list(map(float, keep_g))])
+                                f = np.poly1d(keep_f)
+                                g = np.poly1d(keep_g)
                             if m < k:
                                 if r != ('exc', 'ValueError'):
                                     acc.violation('limit_should_not_exist', {'relation': rel, 'scaled': sc != 1.0}, case, observed=r, expected='ValueError')
